@@ -43,6 +43,8 @@ type RefFS struct {
 	UID  int
 	GID  int
 	H    map[int]*rhandle
+	// NoClock: the history was recorded under the real clock; times set from "now" are unspecified
+	NoClock bool
 }
 
 func NewRefFS(now func() int64, rootPerm uint32) *RefFS {
@@ -120,7 +122,7 @@ func failClass(c string) string {
 }
 
 func (r *RefFS) newNode(kind string, perm uint32) *rnode {
-	n := &rnode{kind: kind, perm: perm & 0o777, uid: r.UID, gid: r.GID, mtime: r.Now(), mtimeOK: true}
+	n := &rnode{kind: kind, perm: perm & 0o777, uid: r.UID, gid: r.GID, mtime: r.Now(), mtimeOK: !r.NoClock}
 	if kind == "dir" {
 		n.children = map[string]*rnode{}
 	}
@@ -688,7 +690,7 @@ func (r *RefFS) Clone() *RefFS {
 		}
 		return &m
 	}
-	out := &RefFS{root: cp(r.root), Now: r.Now, UID: r.UID, GID: r.GID, H: map[int]*rhandle{}}
+	out := &RefFS{root: cp(r.root), Now: r.Now, UID: r.UID, GID: r.GID, H: map[int]*rhandle{}, NoClock: r.NoClock}
 	for id, h := range r.H {
 		nh := *h
 		nh.n = cp(h.n)
